@@ -5,6 +5,7 @@ from vcommon import *
 PID = "C15"
 PROP_V = ["Props/Properties_C15.v", "Props/Properties_C05sw.v"]
 GEN_MODULES = ["Consts", "Sites", "Time"]
+FLOW_FILES = ['nsync_semaphore_futex.c', 'sem_wait.c', 'wait.c', 'cv.c', 'mu_wait.c']
 TRUSTED_BASE = ["the kernel futex contract is modelled in SemModel (timespec validation as Linux timespec64_valid); the real-kernel "
                 "behaviour is exercised by the child-process grid on the real library"]
 PARTIAL = ["C15_expired_prompt/C15_no_crash/C15_no_early_timeout are proved for the semaphore layer every timed entry point bottoms out in; the "
